@@ -342,14 +342,27 @@ fn argument_separator(input: &[u8]) -> ParseResult<()> {
 
 /// Parses an argument value.
 fn argument(input: &[u8]) -> ParseResult<Value<'_>> {
-    characters(input)
-        .or_else(|_| decimal_numeric_program_data(input))
-        .or_else(|_| hexadecimal_numeric_program_data(input))
-        .or_else(|_| binary_numeric_program_data(input))
-        .or_else(|_| octal_numeric_program_data(input))
-        .or_else(|_| single_quoted_string_program_data(input))
-        .or_else(|_| double_quoted_string_program_data(input))
-        .or_else(|_| arbitrary_program_data(input))
+    // Only a soft error lets the next alternative try. An alternative that ran out of
+    // input has already recognised the start of its data type, so the result has to
+    // stay `Incomplete`.
+    fn or<'a>(
+        result: ParseResult<'a, Value<'a>>, next: fn(&'a [u8]) -> ParseResult<'a, Value<'a>>,
+        input: &'a [u8],
+    ) -> ParseResult<'a, Value<'a>> {
+        match result {
+            Err(ParseError::SoftError(_)) => next(input),
+            other => other,
+        }
+    }
+
+    let result = characters(input);
+    let result = or(result, decimal_numeric_program_data, input);
+    let result = or(result, hexadecimal_numeric_program_data, input);
+    let result = or(result, binary_numeric_program_data, input);
+    let result = or(result, octal_numeric_program_data, input);
+    let result = or(result, single_quoted_string_program_data, input);
+    let result = or(result, double_quoted_string_program_data, input);
+    or(result, arbitrary_program_data, input)
 }
 
 /// Parses multiple arguments separated by commas.
